@@ -45,6 +45,7 @@ def run(ck):
     ck.rule("R", "raw-pointer-to-&mut sites in parallel code are exactly the known, reviewed ones")
     ck.rule("P", "rayon::current_num_threads() is only consumed through next_power_of_two() / serial-path thresholds")
     ck.rule("S", "functions of `concurrent` modules have serial siblings with the same signature")
+    ck.rule("Z", "a per-batch count `x / batches(size)` is taken from the quantity the batch-count helper was sized by, or the batch count is capped by x")
     ck.rule("F", "a fragment-local row index never addresses the global domain: what is handed to anything but the fragment itself is offset by fragment.offset()")
 
     users = defaultdict(set)
@@ -132,6 +133,7 @@ def run(ck):
               f"{f.nname} has a serial sibling with the same signature ({cands[0].nname if cands else 'none found'})", loc=f.loc())
     ck.floor("concurrent functions with a serial sibling", n_sib, 4)
     fragment_rule(ck, prog)
+    zero_batch_rule(ck, prog)
     ck.control("`for_each` is not classified as scheduling-dependent", "for_each" not in NONDET)
 
 
@@ -170,6 +172,75 @@ def uses_not_via_npot(f, l):
                     continue
                 bad.append(f"argument of {cn.split('::')[-1]} at {f.loc(b, 'T')}")
     return bad
+
+
+def zero_batch_rule(ck, prog):
+    """Z: a helper that turns an input size into a thread-derived number of batches (1 below a threshold, k * next_power_of_two(threads)
+    above it) guarantees `size / batches >= 1` only for the size it was asked about. A caller that divides a DIFFERENT, smaller quantity
+    by the result (rows of a matrix whose rows x segments was the size) gets a per-batch count of zero on a large pool: every batch
+    copies nothing and, where the destination is an uninitialised vector, garbage is returned (genuine defect of the pinned tree in
+    RowMatrix's transpose, repaired). Accepted: the dividend is the very value handed to the helper, or the divisor passes through
+    min(.., dividend)."""
+    from ..cfg import single_def
+    n = 0
+    for f in prog.fns.values():
+        if not f.blocks or f.crate == "examples":
+            continue
+        g = None
+        for b, t in f.calls():
+            hs, precise = prog.resolve_call(t)
+            if not (precise and len(hs) == 1 and len(t["args"]) == 1):
+                continue
+            h = hs[0]
+            if h.crate != f.crate or (h.get("output") or "") != "usize" or (h.get("inputs") or []) != ["usize"]:
+                continue
+            if not any((callee_name(ht) or "").endswith("current_num_threads") for _, ht in h.calls()):
+                continue
+            if not any(ht2["k"] == "switch" for ht2 in (h.term(x) for x in range(len(h.blocks)))):
+                continue
+            # f calls a thresholded batch-count helper h(size)
+            g = g or flow(f)
+            size_root = _vroot(f, t["args"][0])
+            dest = t["dest"]["l"]
+            for bb, i, st in f.assigns():
+                rv = st["rv"]
+                if rv["k"] != "bin" or rv["op"] != "Div":
+                    continue
+                wd = g.walk(ops=[rv["b"]], at=(bb, i), through=lambda tt: True)
+                if ("c", b) not in wd:
+                    continue
+                n += 1
+                same = _vroot(f, rv["a"]) == size_root
+                names = g.callee_names_in(wd)
+                capped = False
+                if any(x.endswith(("cmp::min", "Ord::min", "Ord::clamp")) for x in names):
+                    for nd in wd:
+                        if nd[0] == "c" and (callee_name(f.term(nd[1])) or "").endswith(("cmp::min", "Ord::min")):
+                            capped = capped or any(_vroot(f, a) == _vroot(f, rv["a"]) for a in f.term(nd[1])["args"])
+                ok = same or capped
+                ck.ob("Z", f"{f.nname.split('::')[-1]}:per-batch-count#{n}", ok,
+                      f"{f.nname.split('::')[-1]}: the quantity divided by {h.nname.split('::')[-1]}(size) is that size, or the batch count is capped by it",
+                      loc=f.loc(bb, i),
+                      detail=None if ok else "the dividend is a different (smaller) quantity than the size the helper was asked about: on a pool with more "
+                                             "batches than that quantity the per-batch count is 0 and nothing is written")
+    ck.floor("Z: divisions by a thresholded batch count", n, 1)
+
+
+def _vroot(f, op, depth=0):
+    from ..cfg import single_def
+    c = op.get("const") if isinstance(op, dict) else None
+    if c is not None:
+        return ("const", c.get("scalar"))
+    l = op_local(op, pure=True)
+    if l is None or depth > 8:
+        return ("?", repr(op))
+    d = single_def(f, l)
+    if d is None or d[1] == "T":
+        return ("local", l)
+    rv = d[2]["rv"]
+    if rv["k"] == "use":
+        return _vroot(f, rv["a"], depth + 1)
+    return ("def", d[0], d[1])
 
 
 def fragment_rule(ck, prog):
